@@ -137,4 +137,11 @@ def subPathRef (nw : Network) (nodes : List Nat) (a b : Nat) : Option (List Nat)
     else none
   | _, _ => none
 
+/-- the two network-level hypotheses of the C09 tour theorems, as a check on a loaded network:
+    depot nodes carry no distance and every node has a finite duration -/
+def netHypsB (nw : Network) : Bool :=
+  nw.allIdx.all (fun i =>
+    (!(nw.node i).isDepot || (nw.node i).dist == 0) &&
+    (match nw.nodeDur i with | .len _ => true | .inf => false))
+
 end RSSched.Spec
